@@ -36,7 +36,7 @@ theorem checkTimes_ne_zero (w : World) (mt : Nat) (nm : String) :
 def InheritsFresh (w : World) (mt : Nat) (inhs : List String) : Prop :=
   ∀ i, i ∈ inhs →
     (∃ t, w.mtime i = some t ∧ t ≤ mt) ∧ (∀ t, w.mtime (binPath w i) = some t → t ≤ mt) ∧
-      w.loaded.contains (objName w i) = true
+      w.loaded.contains (objName w i) = true ∧ treeNewer w mt treeFuel i = false
 
 theorem checkInherits_use (w : World) (mt : Nat) (inhs : List String) :
     checkInherits w mt inhs = .use ↔ InheritsFresh w mt inhs := by
@@ -59,31 +59,44 @@ theorem checkInherits_use (w : World) (mt : Nat) (inhs : List String) :
       have y2 := (checkTimes_ne_zero w mt (binPath w a)).mp h1'.2
       by_cases h2 : w.loaded.contains (objName w a) = true
       · simp only [h2, Bool.not_true, Bool.false_eq_true, if_false]
-        rw [ih]
-        constructor
-        · intro h i hi
-          rcases List.mem_cons.mp hi with e | e
-          · subst e; exact ⟨y1, y2, h2⟩
-          · exact h i e
-        · intro h i hi
-          exact h i (by simp [hi])
+        by_cases h3 : treeNewer w mt treeFuel a = true
+        · simp only [h3, if_true]
+          constructor
+          · intro h; cases h
+          · intro h
+            have := (h a (by simp)).2.2.2
+            rw [h3] at this
+            cases this
+        · have h3' : treeNewer w mt treeFuel a = false := by simpa using h3
+          simp only [h3', Bool.false_eq_true, if_false]
+          rw [ih]
+          constructor
+          · intro h i hi
+            rcases List.mem_cons.mp hi with e | e
+            · subst e; exact ⟨y1, y2, h2, h3'⟩
+            · exact h i e
+          · intro h i hi
+            exact h i (by simp [hi])
       · have h2' : w.loaded.contains (objName w a) = false := by simpa using h2
         simp only [h2', Bool.not_false, if_true]
         constructor
         · intro h; cases h
         · intro h
-          have := (h a (by simp)).2.2
+          have := (h a (by simp)).2.2.1
           rw [h2'] at this
           cases this
 
 /-- the conditions under which the property allows a saved binary to be used: the binary exists; magic, driver id and
-    config id (the simul_efun file's modification time as sampled at start-up) are the current ones; the source file,
+    config id (the simul_efun file's modification time when the simul_efun object was loaded) are the current ones and
+    the simul_efun file itself is not newer than the binary; nothing behind an inherited program (the files it was built
+    from, its saved binary, the programs it inherits in turn — `treeNewer`, see `never_stale_transitive`) is newer; the source file,
     every include file and every inherited source exist and are NOT NEWER than the binary (equal modification times are
     allowed: the property says "newer"); no inherited program has a binary newer than this one; the inherited programs
     are loaded; the binary was saved under this name -/
 def MayUse (w : World) (name : String) : Prop :=
   ∃ mt b, w.mtime (binPath w name) = some mt ∧ w.bins.lookup (binPath w name) = some b ∧
     b.magic = magicId ∧ b.driverId = driverId ∧ b.configId = w.configId ∧
+    (w.simulPath = "" ∨ ∀ t, w.mtime w.simulPath = some t → t ≤ mt) ∧
     (∃ t, w.mtime name = some t ∧ t ≤ mt) ∧
     (∀ i, i ∈ b.includes → ∃ t, w.mtime i = some t ∧ t ≤ mt) ∧
     (b.name.length = 0 ∨ b.name = name) ∧
@@ -110,12 +123,21 @@ theorem never_stale (w : World) (name : String) (h : loadBinary w name = .use) :
     next c4 =>
     split at h
     · cases h
+    next cs =>
+    split at h
+    · cases h
     next c5 =>
     split at h
     · cases h
     next c6 =>
-    refine ⟨mt, b, hm, hb, by simpa using c2, by simpa using c3, by simpa using c4,
+    refine ⟨mt, b, hm, hb, by simpa using c2, by simpa using c3, by simpa using c4, ?_,
       (checkTimes_pos w mt name).mp c1, ?_, ?_, (checkInherits_use w mt b.inherits).mp h⟩
+    · by_cases hp : w.simulPath = ""
+      · exact Or.inl hp
+      · right
+        apply (checkTimes_ne_zero w mt w.simulPath).mp
+        intro hc
+        exact cs ⟨hp, hc⟩
     · intro i hi
       apply (checkTimes_pos w mt i).mp
       intro hc
@@ -133,9 +155,14 @@ theorem never_stale (w : World) (name : String) (h : loadBinary w name = .use) :
 /-- the converse: whenever those conditions hold the binary is used (the decision is exactly the property's rule,
     not merely a safe approximation of it) -/
 theorem fresh_binary_used (w : World) (name : String) (h : MayUse w name) : loadBinary w name = .use := by
-  obtain ⟨mt, b, hm, hb, m1, m2, m3, hs, hi, hn, hinh⟩ := h
+  obtain ⟨mt, b, hm, hb, m1, m2, m3, hsim, hs, hi, hn, hinh⟩ := h
   unfold loadBinary
   rw [hm, hb]
+  have cs : ¬ (w.simulPath ≠ "" ∧ checkTimes w mt w.simulPath = 0) := by
+    rintro ⟨x, y⟩
+    rcases hsim with hsim | hsim
+    · exact x hsim
+    · exact (checkTimes_ne_zero w mt w.simulPath).mpr hsim y
   have c1 : ¬ checkTimes w mt name ≤ 0 := (checkTimes_pos w mt name).mpr hs
   have c5 : ¬ (b.includes.any (fun i => checkTimes w mt i ≤ 0) = true) := by
     rw [List.any_eq_true]
@@ -147,20 +174,84 @@ theorem fresh_binary_used (w : World) (name : String) (h : MayUse w name) : load
     · omega
     · exact y hn
   simp only [c1, m1, m2, m3, c5, c6, ne_eq, not_true_eq_false, if_false]
+  rw [if_neg cs]
   exact (checkInherits_use w mt b.inherits).mpr hinh
 
-/-- non-vacuity: a world in which the binary of a program with an include and an inherit is used; a newer include,
-    and a changed config id, make the same binary stale -/
+/-- the programs reachable from `q` through the inherit lists of the loaded programs -/
+inductive Reach (w : World) : String → String → Prop where
+  | refl (q : String) : Reach w q q
+  | step {q p r : String} (lp : LoadedProg) : w.progs.lookup q = some lp → p ∈ lp.inherits → Reach w p r → Reach w q r
+
+theorem treeNewer_false_reach (w : World) (mt : Nat) {q r : String} (hr : Reach w q r) :
+    ∀ fuel, treeNewer w mt fuel q = false →
+      ∃ lp, w.progs.lookup r = some lp ∧ (∀ f, f ∈ lp.files → ∀ t, w.mtime f = some t → t ≤ mt) ∧
+        (∀ t, w.mtime (binPath w r) = some t → t ≤ mt) := by
+  induction hr with
+  | refl q =>
+    intro fuel h
+    cases fuel with
+    | zero => simp [treeNewer] at h
+    | succ fuel =>
+      unfold treeNewer at h
+      cases hl : w.progs.lookup q with
+      | none => rw [hl] at h; simp at h
+      | some lp =>
+        rw [hl] at h
+        simp only [Bool.or_eq_false_iff] at h
+        refine ⟨lp, rfl, ?_, ?_⟩
+        · intro f hf
+          apply (checkTimes_ne_zero w mt f).mp
+          intro hc
+          have := h.1.1
+          rw [List.any_eq_false] at this
+          exact this f hf (by simpa using hc)
+        · apply (checkTimes_ne_zero w mt (binPath w q)).mp
+          intro hc
+          have := h.1.2
+          simp [hc] at this
+  | step lp hl hp _ ih =>
+    intro fuel h
+    cases fuel with
+    | zero => simp [treeNewer] at h
+    | succ fuel =>
+      unfold treeNewer at h
+      rw [hl] at h
+      simp only [Bool.or_eq_false_iff] at h
+      have := h.2
+      rw [List.any_eq_false] at this
+      exact ih fuel (by simpa using this _ hp)
+
+/-- **never_stale_transitive**: when `load_binary` uses a binary, then for EVERY program reachable from it through
+    inherit lists — directly or through any chain of parents, saved or not — every file that program was built from
+    (its source and all its includes) and its saved binary are not newer than the binary. -/
+theorem never_stale_transitive (w : World) (name : String) (h : loadBinary w name = .use) :
+    ∃ mt b, w.mtime (binPath w name) = some mt ∧ w.bins.lookup (binPath w name) = some b ∧
+      ∀ i, i ∈ b.inherits → ∀ r, Reach w i r →
+        ∃ lp, w.progs.lookup r = some lp ∧ (∀ f, f ∈ lp.files → ∀ t, w.mtime f = some t → t ≤ mt) ∧
+          (∀ t, w.mtime (binPath w r) = some t → t ≤ mt) := by
+  obtain ⟨mt, b, hm, hb, _, _, _, _, _, _, _, hinh⟩ := never_stale w name h
+  refine ⟨mt, b, hm, hb, ?_⟩
+  intro i hi r hr
+  exact treeNewer_false_reach w mt hr treeFuel (hinh i hi).2.2.2
+
+/-- non-vacuity: a inherits b inherits c (b has no saved binary).  The binary of a is used; a newer include, a changed
+    config id, a newer simul_efun file, a newer c, or a newer header of b make the same binary stale -/
 example :
-    let bo : String → String := fun n => if n = "d/a.c" then "B/a" else if n = "d/b.c" then "B/b" else "?"
+    let bo : String → String := fun n => if n = "d/a.c" then "B/a" else if n = "d/b.c" then "B/b" else "B/c"
     let oo : String → String := fun n => if n = "d/b.c" then "d/b" else "?"
-    let w : World := { files := [("B/a", 200), ("d/a.c", 100), ("d/x.h", 200), ("d/b.c", 150), ("B/b", 180)],
+    let w : World := { files := [("B/a", 200), ("d/a.c", 100), ("d/x.h", 200), ("d/b.c", 150), ("d/c.c", 120),
+                                 ("d/y.h", 110), ("sim.c", 50)],
                        bins := [("B/a", { magic := magicId, driverId := driverId, configId := 50,
                                           includes := ["d/x.h"], name := "d/a.c", inherits := ["d/b.c"] })],
-                       loaded := ["d/b"], configId := 50, binOf := bo, objOf := oo }
+                       progs := [("d/b.c", { files := ["d/b.c", "d/y.h"], inherits := ["d/c.c"] }),
+                                 ("d/c.c", { files := ["d/c.c"], inherits := [] })],
+                       loaded := ["d/b"], configId := 50, simulPath := "sim.c", binOf := bo, objOf := oo }
     loadBinary w "d/a.c" = .use ∧
       loadBinary { w with files := ("d/x.h", 201) :: w.files } "d/a.c" = .stale "include" ∧
-      loadBinary { w with configId := 51 } "d/a.c" = .stale "config" := by
+      loadBinary { w with configId := 51 } "d/a.c" = .stale "config" ∧
+      loadBinary { w with files := ("sim.c", 201) :: w.files } "d/a.c" = .stale "simul" ∧
+      loadBinary { w with files := ("d/c.c", 201) :: w.files } "d/a.c" = .stale "behind-inherited" ∧
+      loadBinary { w with files := ("d/y.h", 201) :: w.files } "d/a.c" = .stale "behind-inherited" := by
   decide
 
 /-! ## (b) sort_function_table -/
@@ -439,5 +530,82 @@ theorem switch_tables_sorted_after_patch (strings : List Int) (es out : List SwE
 example : patchInTable [4096, 8192, 100, 6442450944] [⟨0, 10⟩, ⟨1, 11⟩, ⟨2, 12⟩, ⟨3, 13⟩, ⟨-1, 9⟩]
     = some [⟨0, 9⟩, ⟨100, 12⟩, ⟨4096, 10⟩, ⟨8192, 11⟩, ⟨6442450944, 13⟩] := by
   simp [patchInTable, List.mergeSort, List.merge, List.MergeSort.Internal.splitInTwo, swLe]
+
+/-- mapping back what was mapped out, entry by entry -/
+theorem mapM_roundtrip {α β : Type} (f : α → Option β) (g : β → Option α)
+    (hfg : ∀ a b, f a = some b → g b = some a) :
+    ∀ (l : List α) (l' : List β), l.mapM f = some l' → l'.mapM g = some l := by
+  intro l
+  induction l with
+  | nil =>
+    intro l' h
+    simp at h
+    subst h
+    simp
+  | cons a rest ih =>
+    intro l' h
+    rw [List.mapM_cons] at h
+    cases hfa : f a with
+    | none => rw [hfa] at h; simp at h
+    | some b =>
+      cases hr : rest.mapM f with
+      | none => rw [hfa, hr] at h; simp at h
+      | some bs =>
+        rw [hfa, hr] at h
+        simp at h
+        subst h
+        rw [List.mapM_cons, hfg a b hfa, ih bs hr]
+        simp
+
+/-- one switch-table entry: the index that `patch_out` stores leads `patch_in` back to the same address -/
+theorem patch_entry_roundtrip (strings : List Int) (e e' : SwEntry)
+    (h : (if e.key = 0 then some { e with key := -1 }
+          else (indexOfPtr strings e.key).map (fun i => { e with key := (i : Int) })) = some e') :
+    (if e'.key = -1 then some { e' with key := 0 }
+     else if e'.key < 0 then none
+     else (strings[e'.key.toNat]?).map (fun p => { e' with key := p })) = some e := by
+  by_cases hz : e.key = 0
+  · rw [if_pos hz] at h
+    cases h
+    cases e with
+    | mk k a => simp at hz; subst hz; simp
+  · rw [if_neg hz] at h
+    rw [Option.map_eq_some_iff] at h
+    obtain ⟨i, hi, he⟩ := h
+    subst he
+    unfold indexOfPtr at hi
+    by_cases hlt : List.findIdx (fun x => x == e.key) strings < strings.length
+    · simp only [hlt, if_true] at hi
+      cases hi
+      have hget := List.findIdx_getElem (p := fun x => x == e.key) (xs := strings) (w := hlt)
+      have hne1 : ¬ ((List.findIdx (fun x => x == e.key) strings : Nat) : Int) = -1 := by omega
+      have hnn : ¬ ((List.findIdx (fun x => x == e.key) strings : Nat) : Int) < 0 := by omega
+      simp only [hne1, hnn, if_false, Int.toNat_natCast]
+      rw [List.getElem?_eq_getElem hlt]
+      simp only [Option.map_some]
+      have : strings[List.findIdx (fun x => x == e.key) strings] = e.key := by simpa using hget
+      rw [this]
+    · simp only [hlt, if_false] at hi
+      cases hi
+
+/-- **patch_roundtrip**: `patch_in ∘ patch_out` restores every string switch table that `patch_out` can convert (every
+    key is the 0 label or the address of a string of the program): the same entries with the same addresses, in the
+    order `f_switch` searches — for ANY table, sorted or not, and any string table. -/
+theorem patch_roundtrip (strings : List Int) (es mid : List SwEntry)
+    (h : patchOutTable strings es = some mid) :
+    patchInTable strings mid = some (es.mergeSort swLe) ∧ (es.mergeSort swLe).Perm es ∧
+      (es.mergeSort swLe).Pairwise (fun a b => a.key ≤ b.key) := by
+  unfold patchOutTable at h
+  have hback := mapM_roundtrip _ _ (patch_entry_roundtrip strings) es mid h
+  refine ⟨?_, List.mergeSort_perm _ _, ?_⟩
+  · unfold patchInTable
+    rw [hback]
+    rfl
+  · have := List.pairwise_mergeSort (le := swLe) swLe_trans swLe_total es
+    exact this.imp (fun h => by simpa [swLe] using h)
+
+/-- non-vacuity: a table with the 0 label; addresses more than 2^32 apart -/
+example : patchOutTable [4096, 8192, 100, 6442450944] [⟨0, 9⟩, ⟨100, 12⟩, ⟨4096, 10⟩, ⟨6442450944, 13⟩]
+    = some [⟨-1, 9⟩, ⟨2, 12⟩, ⟨0, 10⟩, ⟨3, 13⟩] := by decide
 
 end NV.C17
